@@ -150,7 +150,7 @@ theorem patPropose_spec {cfg : PatCfg} {sp : Space} {f : Pos → Bool} (hgeo : c
                 have := (ht.suffix hs0).feas q a.1 (by rw [e]; simp); rw [← this]; exact hok
               exact ⟨hs1, hq, hfe, hqs⟩
             · simp only [hok, Bool.false_eq_true, if_false] at h
-              cases hmc : moveClimb cfg.geo (some q) (some 1) a.2 with
+              cases hmc : moveClimb cfg.geo (some q) (some 1) (Draw.unif x :: rest0).length a.2 with
               | error e' => rw [hmc] at h; simp at h
               | ok b =>
                 rw [hmc] at h
